@@ -149,13 +149,18 @@ func checkC01(c *Ctx, r *Report) {
 	checkC05(c, tmp5)
 	n5 := 0
 	for _, o := range tmp5.Obls {
-		if o.Rule == "G-base" || o.Rule == "G-prefix" || o.Rule == "O5-parents" || o.Rule == "K2" || o.Rule == "K2b" || o.Rule == "K3" || (o.Rule == "D1+D5" && (strings.Contains(o.Construct, `tag=""`))) {
+		if o.Rule == "G-base" || o.Rule == "G-prefix" || o.Rule == "G-cutset" || o.Rule == "G-rooted" || o.Rule == "O5-parents" || o.Rule == "K2" || o.Rule == "K2b" || o.Rule == "K3" || (o.Rule == "D1+D5" && (strings.Contains(o.Construct, `tag=""`))) {
 			o.Rule = "plan-" + o.Rule
 			r.Obls = append(r.Obls, o)
 			n5++
 		}
 	}
 	r.Floor("plan rules", n5, 50)
+	// defaults are filled into a copy: an entry of the plan never shares its
+	// file info with the caller's entry (otherwise a default written for one
+	// entry - the directory mode, say - shows up as another entry's explicit
+	// value)
+	r.Floor("plan-W1", importRules(c, r, checkC11, "plan-", []string{"W1-entry-fresh", "W1-fileinfo-fresh"}, nil, "PrepareForPackager"), 2)
 	r.Exhaustive = true
 }
 
@@ -317,6 +322,33 @@ func checkPayloadHeaders(c *Ctx, r *Report, pk *Packager, w *ssa.Function, pa *p
 				r.Check(okL, "F1", hk+" Linkname", c.instrPos(h.Create), "the branch that marks the entry a symlink must set the link target from the entry's source")
 			default:
 				check("Linkname", "Content.Source")
+			}
+		}
+		if classes["LINK"] {
+			// "every symlink with its literal target": the value written is the
+			// entry's source itself - conversions only, no rewriting call
+			field := "Linkname"
+			if h.Kind == "rpm" {
+				field = "Body"
+			}
+			okV := true
+			why := "link target definitions are plain reads of the entry's source"
+			seenDef := false
+			for _, st := range h.fieldStores(field) {
+				if !pa.Of(st.Val).has("Content.Source") {
+					continue
+				}
+				if h.Kind == "rpm" && pa.Of(st.Val).has("call:os.ReadFile") {
+					continue // the body of a regular file
+				}
+				seenDef = true
+				if !plainFieldRead(h.valueOf(st), "Source") {
+					okV = false
+					why = fmt.Sprintf("the link target stored at %s is %s: the target must be the entry's source as declared (or as read from disk), not a rewritten form of it", c.instrPos(st), shorten(valueExpr(c, st.Val, 0), 100))
+				}
+			}
+			if seenDef {
+				r.Check(okV, "F1-link-verbatim", hk+" link target", c.instrPos(h.Create), why)
 			}
 		}
 		if h.Kind == "rpm" && classes["FILE"] {
@@ -647,4 +679,23 @@ func contentsLoopBody(fn *ssa.Function) func(ssa.Instruction) bool {
 		}
 		return false
 	}
+}
+
+// plainFieldRead: v is a load of field `name` of an entry, possibly converted
+// ([]byte(x), string(x)) but not passed through any call.
+func plainFieldRead(v ssa.Value, name string) bool {
+	for i := 0; i < 6; i++ {
+		switch x := v.(type) {
+		case *ssa.Convert:
+			v = x.X
+		case *ssa.ChangeType:
+			v = x.X
+		case *ssa.UnOp:
+			fa, ok := x.X.(*ssa.FieldAddr)
+			return ok && x.Op == token.MUL && fieldName(fa.X.Type(), fa.Field) == name
+		default:
+			return false
+		}
+	}
+	return false
 }
